@@ -366,7 +366,6 @@ def scenario_programs(env, cfg):
                 continue
         for rname, impl in routes.items():
             tag = f"{rname}:{text}"
-            pts = SAMPLES + [(float(env.values.get("a", 1.0) if not env.sym else 1.0), float(env.values.get("b", 1.0) if not env.sym else 1.0))] if not env.sym else SAMPLES
             if not env.sym:
                 ok, bad = _numeric_ok(impl, text, variables, None, [(eval_frac(env.values.get("a", "1")), eval_frac(env.values.get("b", "1")))] + SAMPLES)
                 env.prove(tag, ok)
